@@ -10,7 +10,7 @@ Vs == {"V1", "V2", "empty"}
 As == MCKnown \cup {"unknown"}
 Mods == {"m2", "m3", "m4"}                         \* 2-, 3- and 4-part UIDs
 UForms == MCOkUid \cup {"nostream", "fiveparts", "emptypart", "notastring"}
-Paths == MCOkPaths \cup {"abs", "empty"}
+Paths == MCOkPaths \cup {"abs", "empty", "int"}      \* "int": a number where a path belongs
 RLs == {<<>>, <<"r1">>, <<"r2", "r1">>, <<"notalist">>}
 MRec(v, a, m, u, k, p, c, rl) == [op |-> "modadd", v |-> v, a |-> a, m |-> m, uform |-> u, koji |-> k, path |-> p, cat |-> c,
                                    rl |-> rl, out |-> out']
